@@ -43,11 +43,29 @@ MULTI_NESTED = "multi_nested"
 pg.FLATTEN[MULTI_NESTED] = (pg.ERROR, pg.ERROR, pg.FAIL)
 SAME_EXC = "same_exc"  # one stored exception OBJECT, raised again by every stage that picks this behaviour
 pg.FLATTEN[SAME_EXC] = (pg.ERROR,)
-KINDS = (pg.RET, pg.FAIL, pg.ERROR, pg.SKIP, pg.XFAIL, pg.UXSUCCESS, pg.MULTI, MULTI_NESTED, pg.KBI, SAME_EXC)
+SKIP_FALSY = "skip_falsy"  # skipTest(reason) with a reason that is falsy (an empty lazy string, 0) yet has a text
+pg.FLATTEN[SKIP_FALSY] = (pg.SKIP,)
+KINDS = (pg.RET, pg.FAIL, pg.ERROR, pg.SKIP, pg.XFAIL, pg.UXSUCCESS, pg.MULTI, MULTI_NESTED, pg.KBI, SAME_EXC, SKIP_FALSY)
+
+
+class FalsyReason:
+    def __init__(self, text):
+        self.text = text
+
+    def __bool__(self):
+        return False
+
+    def __str__(self):
+        return self.text
 _prev_perform = pg.perform
 
 
 def _perform(case, ctx, stage, kind):
+    if kind == SKIP_FALSY:
+        marker = "%s!%s" % (stage, kind)
+        ctx.raised.append((stage, kind, marker))
+        ctx.xlog.append(("raise", stage, kind))
+        case.skipTest(FalsyReason(marker))
     if kind == SAME_EXC:
         exc = ctx.extra.get("same_exc")
         if exc is None:
@@ -321,7 +339,7 @@ def check_execution(cfg, ctx, config, shared, how):
     for stage, kind, marker in ctx.raised:
         if marker.endswith("!assertThat"):
             continue
-        if kind in (pg.SKIP, pg.UXSUCCESS):
+        if kind in (pg.SKIP, pg.UXSUCCESS, SKIP_FALSY):
             continue
         if config.decorator == "xfail_decorator" and stage == "test" and kind == pg.SKIP:
             continue
@@ -358,7 +376,7 @@ def check_execution(cfg, ctx, config, shared, how):
             problems.append(("traceback", "traceback detail %r stands for several user exceptions at once: %r" % (k, sorted(plain))))
     # (3) skip reason
     if outcome == "addSkip":
-        skips = [marker for stage, kind, marker in ctx.raised if kind == pg.SKIP]
+        skips = [marker for stage, kind, marker in ctx.raised if kind in (pg.SKIP, SKIP_FALSY)]
         reason = details.get("reason")
         if reason is None or reason[1].decode("utf8") not in skips:
             problems.append(("skip-reason", "skip reason delivered %r, skips raised %r" % (reason, skips)))
